@@ -848,6 +848,8 @@ class Interp:
                 return SStr(fresh_str("enumname"))
             if name == "to_bytes":
                 return Builtin("m:to_bytes", bound=self.as_int(obj))
+            if obj.cls.enum["str"]:
+                return Builtin("m:" + name, bound=obj.value)  # a str-based enum member behaves as its string
             raise EngineError(f"enum attribute {name}")
         if isinstance(obj, ModuleRef):
             full = f"{obj.name}.{name}"
